@@ -74,7 +74,7 @@ def flat_spec(c, names, refs, upto_setup, upto_j, first=1):
 
 class _Flatten(Contract):
     qualname = "pyoma2.functions.gen.flatten_sns_names"
-    props = ("C19",)
+    props = ("C19", "C02")       # C02: the merged shape's row order is the order in which the multi-setup names are flattened
     generic_replay = False
     bounded_driver = {"driver": "c19_geo", "inputs": {"trials": 60}}
 
